@@ -166,6 +166,8 @@ def c03(tier, seed):
     q = tier == "quick"
     units = code_units("concat", tier, seed) + code_units("offsets", tier, seed) + edge_units(tier, seed)
     units += shards("hist", "hist", 4 if q else 16, seed + 17, dict(histories=5 if q else 20, len=40))
+    # every entry of the decoding tables once (a wrong entry is a wrong round trip for a narrow set of inputs)
+    units += cfg_shards("tables", "tables", NR, seed, dict(full=0, frac=64), pick=pick_from(TABLE_CFGS, 4 if q else 8, seed + 4))
     return dict(
         mc=[MC_CODES],
         rule="(a) TLC checks the codebook theorems (Dec(Enc(n) o tail) = n, position = CLen, prefix-freeness) on "
@@ -195,7 +197,9 @@ def c06(tier, seed):
              "with Codes!CLen; the value returned by each write and the advance of each read are compared with "
              "the same closed form in the write/read events. distinct = (family, parameter, value).",
         units=code_units("alone", tier, seed + 1) + code_units("concat", tier, seed + 1, 6, 30) + edge_units(tier, seed + 2)
-              + enc_table_units(tier, seed + 1),
+              + enc_table_units(tier, seed + 1)
+              # bits consumed by every entry of the decoding tables
+              + cfg_shards("tables", "tables", NR, seed, dict(full=0, frac=64), pick=pick_from(TABLE_CFGS, 4 if tier == "quick" else 8, seed + 6)),
     )
 
 
@@ -482,8 +486,10 @@ def c19(tier, seed):
         tag = "%s-%s" % (v[0], v[1].replace(",", "+") or "default")
         units += shards("hist-" + tag, "hist", 1 if q else 6, seed + vi, dict(histories=4 if q else 12, len=40), variant=v)
         units += shards("dirty-" + tag, "dirty", 1, seed + vi, dict(), variant=v)
-        units += cfg_shards("copy-" + tag, "copy", NR, seed + vi, dict(rpaths=RP, wpaths=WP, full=0),
-                            pick=pick_cfgs(NR, 2 if q else 8, seed + vi), variant=v)     # 2: the same configuration in both endiannesses
+        # quick: one rotating configuration and one over 64-bit words (where the >64-bit buffer paths live),
+        # each in both endiannesses
+        cp = (pick_cfgs(NR, 2, seed + vi) | {18 + (seed + vi) % 6, 46 + (seed + vi) % 6}) if q else pick_cfgs(NR, 8, seed + vi)
+        units += cfg_shards("copy-" + tag, "copy", NR, seed + vi, dict(rpaths=RP, wpaths=WP, full=0), pick=cp, variant=v)
         units += cfg_shards("codes-" + tag, "codes", 15, seed + vi, dict(mode="alone", full=0),
                             pick=pick_cfgs(15, 1 if q else 6, seed + vi), variant=v)
         # byte writes are cheap: every writer configuration in every variant
